@@ -313,3 +313,181 @@ def widths(seq):
         else:
             out.append(e)
     return tuple(out)
+
+
+# --------------------------------------------------------- normalised signatures ----
+
+def _read_site_of(B, c):
+    """for a canonical value: the block of the read primitive it comes from, if any"""
+    # ('place', ('payload', ('call', name, bb)), ('1',))  from  be_u32(input)?.1
+    if c[0] == 'cast':
+        return _read_site_of(B, c[2])
+    if c[0] == 'place' and c[1][0] == 'payload' and c[1][1][0] == 'call':
+        return c[1][1][2]
+    if c[0] == 'call':
+        return c[2]
+    return None
+
+
+def loop_bound(B, comp_blocks):
+    """For a loop (set of blocks): canonical value of the end of the `a..b` Range it iterates, or the
+    collection it iterates; returns ('range', canon_end) | ('iter', canon_collection) | None"""
+    for bb in sorted(comp_blocks):
+        t = B.blocks[bb]['t']
+        if t['k'] != 'call':
+            continue
+        g, r = callee_of(t)
+        if g != 'core::iter::traits::iterator::Iterator::next' or not t['args']:
+            continue
+        o = B.origin(t['args'][0])
+        for _ in range(6):
+            if o[0] == 'call' and o[1] and (o[1].endswith('into_iter') or o[1].endswith('::iter') or o[1].endswith('::iter_mut')
+                                            or o[1].endswith('::enumerate') or o[1].endswith('::rev')):
+                o = B.origin(B.blocks[o[2]]['t']['args'][0])
+                continue
+            break
+        if o[0] == 'agg' and o[1].get('adt', '').endswith('ops::range::Range') and len(o[1]['ops']) == 2:
+            return ('range', canon(B, o[1]['ops'][1]))
+        if o[0] in ('arg', 'local', 'call', 'proj'):
+            return ('iter', o)
+    return None
+
+
+def signature(B, subcalls=None, direction='r'):
+    """Normalised wire signatures of a reader/writer: set of tuples of items
+       ('u8'|'u16'|...,) | ('bytes', ref) | ('term',) | ('rep', items, ref) | ('const', width, value)
+    where ref is the index of the earlier item that supplies the length/count, an int constant, or None."""
+    live = B.live_blocks()
+    err = error_blocks(B)
+    comps = _sccs(B, live)
+    comp_of = {}
+    for ci, c in enumerate(comps):
+        for v in c:
+            comp_of[v] = ci
+    loops = {ci: set(c) for ci, c in enumerate(comps) if len(c) > 1 or c[0] in B.succ(c[0])}
+
+    def ev(B_, bb):
+        out = []
+        for e in io_events(B_, bb, detail=True, subcalls=subcalls):
+            out.append(e + (bb,) if isinstance(e, tuple) else (e, bb))
+        return out
+
+    # raw sequences with site ids; loops become ('rep', inner, loopinfo)
+    def event_fn(B_, bb):
+        return ev(B_, bb)
+
+    seqs, trunc = success_sequences(B, event_fn)
+    out = set()
+    for s in seqs:
+        out.add(_normalise(B, s, loops, comp_of))
+    return out, trunc
+
+
+def _normalise(B, seq, loops, comp_of):
+    items = []
+    site_pos = {}     # bb of a read primitive -> index of its item
+
+    def norm_item(e, pos_base):
+        if isinstance(e, tuple) and e and e[0] == 'rep':
+            inner = []
+            first_bb = None
+            for x in e[1]:
+                inner.append(norm_item(x, None))
+                if first_bb is None and isinstance(x, tuple):
+                    first_bb = x[-1]
+            ref = None
+            if first_bb is not None and first_bb in comp_of and comp_of[first_bb] in loops:
+                lb = loop_bound(B, loops[comp_of[first_bb]])
+                if lb and lb[0] == 'range':
+                    site = _read_site_of(B, lb[1])
+                    if site in site_pos:
+                        ref = site_pos[site]
+                    elif lb[1][0] == 'const':
+                        ref = ('const', lb[1][1])
+                    else:
+                        ref = ('val', _short(B, lb[1]))
+                elif lb and lb[0] == 'iter':
+                    ref = ('iter', _short_o(B, lb[1]))
+            return ('rep', tuple(inner), ref)
+        if not isinstance(e, tuple):
+            return (str(e),)
+        if e[0] in ('r', 'w'):
+            d, w, v = e[0], e[1], e[2]
+            if w == 'bytes':
+                ref = None
+                if isinstance(v, int):
+                    ref = ('const', v)
+                elif v is not None:
+                    ref = ('val', str(v))
+                return ('bytes', ref)
+            if d == 'w' and isinstance(v, int):
+                return ('const', w, v)
+            if d == 'w':
+                return (w, ('val', str(v)))
+            return (w,)
+        return (str(e[0]),)
+
+    for e in seq:
+        it = norm_item(e, None)
+        if isinstance(e, tuple) and e and e[0] in ('r',) and e[1] not in ('bytes', 'skip'):
+            site_pos[e[-1]] = len(items)
+        items.append(it)
+    # resolve byte-length references of readers: take(n) where n comes from an earlier read
+    res = []
+    for i, (e, it) in enumerate(zip(seq, items)):
+        if it[0] == 'bytes' and isinstance(e, tuple) and e[0] == 'r' and e[2] is not None and not isinstance(e[2], int):
+            # e[2] is a description; recover the canonical value from the take() call
+            bb = e[-1]
+            t = B.blocks[bb]['t']
+            ref = it[1]
+            g, r = callee_of(t)
+            if g in ('core::ops::function::FnMut::call_mut', 'core::ops::function::FnOnce::call_once', 'nom::internal::Parser::parse'):
+                o = B.origin(t['args'][0])
+                if o[0] == 'call':
+                    n_op = B.blocks[o[2]]['t']['args'][0]
+                    site = _read_site_of(B, canon(B, n_op))
+                    if site in site_pos:
+                        ref = site_pos[site]
+            res.append(('bytes', ref))
+        else:
+            res.append(it)
+    return tuple(res)
+
+
+def _short(B, c):
+    return describe(B, c)
+
+
+def _short_o(B, o):
+    if o[0] in ('arg', 'local'):
+        nm = B.local_name(o[1]) or ('arg%d' % o[1])
+        return nm + ''.join('.' + str(p) for p in o[2])
+    if o[0] == 'call':
+        return (o[1] or '?').rsplit('::', 1)[-1] + '()'
+    return o[0]
+
+
+def fmt_sig(sig):
+    out = []
+    for it in sig:
+        if it[0] == 'rep':
+            out.append('rep[%s](%s)' % (_fmt_ref(it[2]), fmt_sig(it[1])))
+        elif it[0] == 'bytes':
+            out.append('bytes[%s]' % _fmt_ref(it[1]))
+        elif it[0] == 'const':
+            out.append('%s=%s' % (it[1], it[2]))
+        elif len(it) == 2:
+            out.append('%s(%s)' % (it[0], _fmt_ref(it[1])))
+        else:
+            out.append(it[0])
+    return ' '.join(out)
+
+
+def _fmt_ref(r):
+    if r is None:
+        return '?'
+    if isinstance(r, int):
+        return '#%d' % r
+    if isinstance(r, tuple):
+        return str(r[1])
+    return str(r)
